@@ -219,11 +219,11 @@ def run(tier, report):
     core.import_repo()
     rng = core.rng(12)
     cfg = "Delimited_quick.cfg" if tier == "quick" else "Delimited_deep.cfg"
-    result = core.tlc("MCDelimited", cfg, timeout=7000)
+    result = core.tlc("MCDelimited", cfg, timeout=7000, share=True)
     core.require_coverage(result, ["Refuse", "AddRow", "AddCell", "AddChar", "Write", "Read"], "Delimited")
     report.add_tlc("Delimited %s: 40 configuration classes x all tables within the bounds" % cfg, result)
     vectors = result.by_tag("VEC")
-    raw = core.tlc("MCDelimited", "Delimited_raw.cfg" if tier == "quick" else "Delimited_raw_deep.cfg", timeout=7000)
+    raw = core.tlc("MCDelimited", "Delimited_raw.cfg" if tier == "quick" else "Delimited_raw_deep.cfg", timeout=7000, share=True)
     core.require_coverage(raw, ["TypeChar", "ReadRaw"], "Delimited raw")
     report.add_tlc("Delimited raw reading: every text of up to %d characters x 20 configuration classes" % (4 if tier == "quick" else 6), raw)
     raw_vectors = [vec for vec in raw.by_tag("VEC") if vec["phase"] == "rawread"]
